@@ -1,6 +1,24 @@
-(** Correspondence for C01: the shared snap case, compared on the observables C01 is about. *)
-From Coq Require Import ZArith List.
+(** Correspondence for C01: whole SnapPolygon calls (shared snap case), compared on the observables C01 is about,
+    and, component level, kmpDeduplicate on chains of pixel centres through the verif hook (exact). *)
+From Coq Require Import ZArith List Bool.
 From Texel Require Export Prelude.Base Prelude.Corr Index.Model Snap.Model Corr.SnapCase.
-Definition case := snapcase.
-Definition check (c : case) : bool := check_proj proj_edges eq_edges c.
+Import ListNotations.
+
+Inductive kobs := KOk (r : list pt) | KPanic (e : obs_err).
+
+Inductive case :=
+| SnapC (c : snapcase)
+| KmpCase (r : list pt) (obs : kobs).
+
+Definition check (k : case) : bool :=
+  match k with
+  | SnapC c => check_proj proj_edges eq_edges c
+  | KmpCase r obs =>
+      match kmpDeduplicate r, obs with
+      | Ok r', KOk o => ring_eqb r' o
+      | Err e, KPanic (OErr e') => err_eqb e e'
+      | _, _ => false
+      end
+  end.
+
 Definition mismatches (l : list case) : list N := mismatches_from check 0 l.
